@@ -381,7 +381,24 @@ def check_has_child_empty_members(ctx, rng):
     cont = data["recs"]
     if any(not k for k in keysets) and any(k for k in keysets):
         ctx.mark_nontrivial([doc, "has_child-empty-members"])
-    for key in ("v", "w", "zz"):
+    boolkeys = rng.random() < 0.3
+    if boolkeys:
+        # Hashes keyed by Booleans next to the String-keyed ones: `true` is not the key `1`, `false` is not the key `0`
+        extra = [rng.choice(["{true: x}", "{false: y, v: 1}", "{true: 1, false: 0}"]) for _ in range(rng.randrange(1, 3))]
+        for e in extra:
+            recs.append(e)
+            keysets.append({"v"} if "v:" in e else set())
+        n = len(recs)
+        if shape == "aoh":
+            doc = "{recs: [%s], o: 1}" % ", ".join(recs)
+            refs = list(range(n))
+        else:
+            refs = ["r%d" % i for i in range(n)]
+            doc = "{recs: {%s}, o: 1}" % ", ".join("%s: %s" % (k, r) for k, r in zip(refs, recs))
+        data = yp.load(doc)
+        cont = data["recs"]
+        ctx.mark_nontrivial([doc, "has_child-boolean-keys"])
+    for key in ("v", "w", "zz") + (("1", "0") if boolkeys else ()):
         has = [i for i in range(n) if key in keysets[i]]
         lack = [i for i in range(n) if key not in keysets[i]]
         for inv in (False, True):
